@@ -82,7 +82,14 @@ def _entry_points(ctx: Ctx, rng):
     frame = M.gen_frame(rng, nmax=7, pnull=rng.choice([0.15, 0.3]), index_kinds=("default", "string", "nonunique", "unsorted"))
     df = frame.to_pandas()
     names = rng.sample(M.NUM + list(M.CAT), rng.randint(1, 3))
-    rhs = " + ".join(names)
+    # factors whose evaluated values are 2-D arrays, dictionaries of columns or wrapped series: nulls are found row-wise in all of them
+    def wrap(nm):
+        if nm in M.NUM and len({v for v in frame.num[nm] if v is not None}) >= 3 and rng.random() < 0.5:
+            return rng.choice(["poly({n}, 2)", "np.log({n}*{n} + 1)", "I({n})", "bs({n}, df=3, degree=1)"]).format(n=nm)
+        if nm in M.CAT and rng.random() < 0.3:
+            return rng.choice(["C({n})", "C({n}, contr.sum)"]).format(n=nm)
+        return nm
+    rhs = " + ".join(wrap(nm) for nm in names)
     lhs = rng.choice([n for n in M.NUM])
     cd = sorted(set(rng.randrange(frame.n) for _ in range(rng.choice([0, 1, 2]))))
     terms = [[(x, "lookup")] for x in names]
